@@ -130,7 +130,13 @@ func VpHIter() {
 	seekMode := vpChoose("seek", 2) == 1
 	var seekKey []byte
 	if seekMode {
-		seekKey = vpBytes("seekKey", 1)
+		seekKey = vpBytes("seekKey", 1+vpChoose("seeklen", vpParam("iter.seeklen", 1)))
+		// Precondition (documented use of Seek on a prefix iterator): the seek key lies inside
+		// the iterator's Prefix. Outside it the real iterator stops at the first key that does
+		// not carry the prefix, which C05 does not speak about.
+		if len(prefix) > 0 {
+			vpAssume(vpHasPrefix(seekKey, prefix))
+		}
 	}
 
 	db := &DB{}
